@@ -349,3 +349,38 @@ Example C13_ex_vtt_text :
   | Err _ => False
   end.
 Proof. vm_compute. reflexivity. Qed.
+
+(* ==== round 4: SAMI and WebVTT down to the printed text ============================================================ *)
+From PV Require Import model.Pos13Doc proofs.Pos13TextDocFacts.
+
+(* SAMI: with relativization on, every margin the writer prints (margin-top / -right / -bottom / -left of the set-level
+   block and of every language block: model/Pos13Doc.v, request 1322) is the print of a padding component of that level of
+   the transformed set, is a number followed by "%", and Size.from_string reads it back as a percentage within 1/200 of
+   the exact relativized value.  Paddings non-negative (the size language). *)
+Theorem C13_sami_document_percent : forall c s s', w_rel c = true -> sami_transform c s = Ok s' ->
+  Forall opt_pad_nonneg (ns_layout s' :: map nl_layout (ns_langs s')) ->
+  Forall2 (fun block o => forall k t, In (k, t) block -> exists z, In z (padding_sizes o) /\ printed_pct_of t z)
+          (sami_doc_margins s') (ns_layout s' :: map nl_layout (ns_langs s')).
+Proof. exact sami_document_percent. Qed.
+Print Assumptions C13_sami_document_percent.
+
+(* WebVTT: every computed position / line / size of every cue of every caption of the written language - in every
+   configuration - is printed as a percentage that re-parses within 1/200 of the exact value (non-negative lengths);
+   raw settings are C12's verbatim clause *)
+Theorem C13_vtt_document_percent : forall c lg outs, vtt_language c lg = Ok outs -> Forall (Forall cue_text_pct) outs.
+Proof. exact vtt_document_percent. Qed.
+Print Assumptions C13_vtt_document_percent.
+
+Example C13_ex_sami_margins :
+  let px v := mkSize v PX in
+  let l := mkLayout None None (Some (mkPadding (px (36 # 1)) (px (18 # 1)) (px (64 # 1)) (px (32 # 1)))) None None in
+  match sami_transform (mkCfg true false (Some (640 # 1)) (Some (360 # 1))) (mkNset None [mkNlang (Some l) []]) with
+  | Ok s' => sami_doc_margins s' = [[]; [(lit "margin-top", lit "10%"); (lit "margin-right", lit "5%");
+                                        (lit "margin-bottom", lit "5%"); (lit "margin-left", lit "10%")]]
+             /\ Forall opt_pad_nonneg (ns_layout s' :: map nl_layout (ns_langs s'))
+  | Err _ => False
+  end.
+Proof.
+  vm_compute. split; [reflexivity|].
+  repeat constructor; intros z Hz; cbn in Hz; repeat (destruct Hz as [<-|Hz]; [cbn; discriminate|]); destruct Hz.
+Qed.
